@@ -852,6 +852,11 @@ func (p *sparser) primary() *SExpr {
 			p.expect(")")
 			return &SExpr{Op: "paren", Args: []*SExpr{x}}
 		}
+		if t.s == "[" && p.isOp("]") {
+			p.i++
+			x := p.unary()
+			return &SExpr{Op: "slicetype", Args: []*SExpr{x}}
+		}
 	}
 	p.i--
 	p.fail("unexpected %q", t.s)
@@ -895,6 +900,8 @@ func (x *SExpr) String() string {
 		return "(" + x.Op + " " + strings.Join(b, ", ") + " :: " + x.Args[0].String() + ")"
 	case "zero":
 		return x.Args[0].String() + "{}"
+	case "slicetype":
+		return "[]" + x.Args[0].String()
 	}
 	return x.Op
 }
